@@ -5,7 +5,7 @@ import random
 from vmon import env, hooks, tablegen
 from vmon.aromgen import standard_system
 from vmon.hooks import MON, call_guard
-from vmon.molgen import random_tree_mol, spell, macrocycle
+from vmon.molgen import random_tree_mol, spell, macrocycle, symbol_family_smiles
 from vmon.refsem import classify, capacity, tokens_with_dots
 from vmon.smiles_reader import ELEMENTS, read_smiles, SmilesSyntaxError
 
@@ -30,7 +30,7 @@ def shards(tier):
 def floors(tier):
     return {"accepted": 5000, "stable": 5000, "variant_pairs_equal": 2000, "variant_pairs_with_different_text": 500,
             "extreme_atoms": 3000, "charge_with_zero_digit": 100, "index_len2": 20, "index_len3": 4, "aromatic_ok": 50,
-            "tokens_checked": 50000, "cross_table_decodes": 300, "first_seen_under_tight_table": 1000}
+            "tokens_checked": 50000, "cross_table_decodes": 300, "first_seen_under_tight_table": 1000, "symbol_family_accepted": 400, "set:symbol_families": 12, "aromatic_tight_accepted": 100}
 
 
 def dress(m, rng, p=0.6):
@@ -136,8 +136,7 @@ def run(ctx):
             t = rng.choice([{"?": 12}, {"?": 12}, "default", "hypervalent", "octet_rule", None])
             if t is None:
                 t = tablegen.random_table(rng, caps=[4, 6, 8, 12, 20], q=12)
-            sf.set_semantic_constraints(t)
-            table = sf.get_semantic_constraints()
+            table = tablegen.set_table_hostile(sf, t, rng, ctx)
             tname = "t%d" % i
         extreme = rng.random() < 0.6
         if extreme:
@@ -188,6 +187,26 @@ def run(ctx):
         s, _, _, _ = spell(m, rng, variants=False)
         check(s, table, "default", "macrocycle")
         check("C1" + "C" * (nring - 2) + "C1" + "C(" + "C" * rng.choice([1, 20, 300]) + ")O", table, "default", "macrocycle-linear")
+    # every ring / branch symbol kind x every index length, under a lax and the default table
+    fam = list(symbol_family_smiles(rng))
+    for tt in ({"?": 12}, "default"):
+        sf.set_semantic_constraints(tt)
+        table = sf.get_semantic_constraints()
+        for s, tag in fam[ctx.shard::ctx.nshards]:
+            if check(s, table, "fam", "symbol-family:" + tag) is not None:
+                ctx.count("symbol_family_accepted")
+            ctx.see("symbol_families", tag.rsplit(":", 1)[0])
+    # aromatic systems under tight / random tables: whatever strict accepts must decode and be stable
+    for i in range(60 if quick else 2000):
+        t = tablegen.perturbed_preset(rng) if rng.random() < 0.6 else tablegen.random_table(rng, caps=[2, 3, 3, 4, 4, 5, 6], q=rng.choice([3, 4, 8]))
+        try:
+            table = tablegen.set_table_hostile(sf, t, rng, ctx)
+        except ValueError:
+            continue
+        m, kind_of, ae = standard_system(rng, nrings=rng.choice([1, 2, 3]))
+        s, _, _, _ = spell(m, rng)
+        if check(s, table, "tight%d" % i, "aromatic-tight-table") is not None:
+            ctx.count("aromatic_tight_accepted")
     sf.set_semantic_constraints({"?": 12})
     table = sf.get_semantic_constraints()
     for i in range(40 if quick else 1500):
